@@ -4,7 +4,6 @@ import (
 	"context"
 	"fmt"
 	"reflect"
-	"regexp"
 	"strings"
 
 	"gorm.io/gorm/clause"
@@ -53,11 +52,54 @@ func toColumns(val string) (results []string) {
 	return
 }
 
+// removeSettingFromTag removes the named settings from the gorm part of a struct tag: every occurrence of each,
+// however its key is spelt (letter case, blanks around it)
 func removeSettingFromTag(tag reflect.StructTag, names ...string) reflect.StructTag {
-	for _, name := range names {
-		tag = reflect.StructTag(regexp.MustCompile(`(?i)(gorm:.*?)(`+name+`(:.*?)?)(;|("))`).ReplaceAllString(string(tag), "${1}${5}"))
+	const prefix = `gorm:"`
+	str := string(tag)
+	start := strings.Index(str, prefix)
+	if start < 0 {
+		return tag
 	}
-	return tag
+	start += len(prefix)
+	end := start
+	for end < len(str) && (str[end] != '"' || str[end-1] == '\\') {
+		end++
+	}
+	if end >= len(str) {
+		return tag
+	}
+
+	remove := make(map[string]bool, len(names))
+	for _, name := range names {
+		remove[strings.ToUpper(name)] = true
+	}
+
+	// the settings are separated by ';' (an escaped one belongs to its setting)
+	pieces := strings.Split(str[start:end], ";")
+	for i := 0; i < len(pieces)-1; i++ {
+		if strings.HasSuffix(pieces[i], `\`) {
+			pieces[i] += ";" + pieces[i+1]
+			pieces = append(pieces[:i+1], pieces[i+2:]...)
+			i--
+		}
+	}
+
+	var kept strings.Builder
+	for i, piece := range pieces {
+		key := piece
+		if idx := strings.Index(piece, ":"); idx >= 0 {
+			key = piece[:idx]
+		}
+		if remove[strings.TrimSpace(strings.ToUpper(key))] {
+			continue
+		}
+		kept.WriteString(piece)
+		if i < len(pieces)-1 {
+			kept.WriteByte(';')
+		}
+	}
+	return reflect.StructTag(str[:start] + kept.String() + str[end:])
 }
 
 func appendSettingFromTag(tag reflect.StructTag, value string) reflect.StructTag {
